@@ -124,6 +124,7 @@ pub open spec fn odots_of<A>(rem: Seq<Dot<A>>, m: SMap<A, u64>, full: bool) -> b
 
 impl<A: Ord> ResetRemove<A> for VClock<A> {
     open spec fn rr_inv(&self) -> bool { actor_ok::<A>() ==> nz(self@) }
+    open spec fn rr_post(old_: &Self, clock: &VClock<A>, new_: &Self) -> bool { true }
 
 //@extract fn src/vclock.rs "ResetRemove for VClock" reset_remove
     fn reset_remove(&mut self, other: &Self)
@@ -178,6 +179,7 @@ impl<A: Ord + Clone> CmRDT for VClock<A> {
     type Validation = DotRange<A>;
     open spec fn cm_inv(&self) -> bool { actor_ok::<A>() ==> nz(self@) }
     open spec fn cm_pre(&self, op: &Dot<A>) -> bool { true }
+    open spec fn cm_post(old_: &Self, op: &Dot<A>, new_: &Self) -> bool { true }
 
 //@extract fn src/vclock.rs "CmRDT for VClock" validate_op
     fn validate_op(&self, dot: &Self::Op) -> /*@ (r: @*/ Result<(), Self::Validation> /*@ ) @*/
@@ -215,6 +217,7 @@ impl<A: Ord + Clone> CvRDT for VClock<A> {
     type Validation = Infallible;
     open spec fn cv_inv(&self) -> bool { actor_ok::<A>() ==> nz(self@) }
     open spec fn cv_pre(&self, other: &Self) -> bool { true }
+    open spec fn cv_post(old_: &Self, other: &Self, new_: &Self) -> bool { true }
 
 //@extract fn src/vclock.rs "CvRDT for VClock" validate_merge
     fn validate_merge(&self, _other: &Self) -> /*@ (r: @*/ Result<(), Self::Validation> /*@ ) @*/
